@@ -278,7 +278,7 @@ _ATTACK_SYNC_UNITS = [
 
 PROPS["C02"] = {
     "title": "Every started hit yields exactly one result and the attack ends cleanly",
-    "units": [{"name": "bubble", "pkg": "libsync", "go": "go1.26.8", "run": "^TestC02(Random|Exhaustive|TwoAttacks)", "scale_thorough": 6},
+    "units": [{"name": "bubble", "pkg": "libsync", "go": "go1.26.8", "run": "^TestC02(Random|Exhaustive|TwoAttacks|Restart)", "scale_thorough": 6},
               {"name": "stoprace", "pkg": "lib", "run": "^TestC02StopRace", "shards_quick": 2, "shards_thorough": 8},
               {"name": "dialpath", "pkg": "lib", "run": "^TestC02(DialPath|SourceFails)", "shards_quick": 2, "shards_thorough": 8},
               {"name": "loopends", "pkg": "libsync", "go": "go1.26.8", "run": "^TestC04Loop", "env": {"VERIF_AS": "C02"}, "shards_quick": 2, "shards_thorough": 8},
@@ -309,7 +309,8 @@ PROPS["C02"] = {
 
 PROPS["C03"] = {
     "title": "Requests in flight never exceed max-workers and free capacity is used",
-    "units": [{"name": "bubble", "pkg": "libsync", "go": "go1.26.8", "run": "^(TestC02(Random|Exhaustive|TwoAttacks)|TestC03RealPacer)", "env": {"VERIF_AS": "C03"}, "scale_thorough": 6}],
+    "units": [{"name": "bubble", "pkg": "libsync", "go": "go1.26.8", "run": "^(TestC02(Random|Exhaustive|TwoAttacks)|TestC03RealPacer)", "env": {"VERIF_AS": "C03"}, "scale_thorough": 6},
+              {"name": "realtransport", "pkg": "lib", "run": "^TestC03RealTransport", "shards_quick": 2, "shards_thorough": 8}],
     "rule": "Same bubble histories as C02 (exhaustive up to length 4/6/7 over workers 0..3 x max-workers 1..3, random "
             "up to 200 actions with max-workers up to 64, any initial worker count incl. 0 and > max). Non-trivial = a "
             "tick while all max workers were busy (pending hit) or a stop cause with hits in flight; distinct = (config, "
@@ -586,4 +587,24 @@ _ADDED5 = {'C01': ' Round 8: sine trajectories entered on schedule 1e7..1e11 hit
            'C19': ' Round 8: earlier -rate values with a period of zero; C19.ratecmd passes repeated -rate flags to the attack command.',
            'C20': ' Round 8: U+FFFD in methods, URLs and messages; negative latencies.'}
 for _k, _v in _ADDED5.items():
+    PROPS[_k]["rule"] += _v
+
+_ADDED6 = {'C02': ' Round 9: C02.restart (an attack stopped while its pacing loop sleeps, Attack called again at once on the same Attacker); unbuildable targets in the loop check.',
+           'C03': ' Round 9: C03.realtransport: K hits at once with max-workers K against a local server that answers only when K requests are being served (HTTP/2 over TLS with 1..3 streams per connection; Connections(n) before / after KeepAlive(false)).',
+           'C04': ' Round 9: every k-th target cannot be built into a request (it still counts as a released hit).',
+           'C05': ' Round 9: C05.stoptwice (round trips that end when the request is cancelled, 1..3 Stop calls); uploads of 1 KiB..8 MiB the server reads late, chunked or not.',
+           'C06': ' Round 9: URLs not in net/url\'s spelling and the empty method; body reads that end in a timeout error.',
+           'C07': ' Round 9: every codec into buffered writers of 1..8192 bytes flushed by the caller and into a byte-at-a-time writer.',
+           'C08': ' Round 9: gob / JSON streams whose first record is empty or nearly so.',
+           'C09': ' Round 9: C09.pair with both files cut, calls continuing after the first error, header-less records compared with Result.Equal\'s nil/empty distinction.',
+           'C10': ' Round 9: latencies below zero on the results that started last; another report built in between and both read again.',
+           'C11': ' Round 9: the HDR report rendered before every Close; C11.reportcmd over several files of unequal lengths.',
+           'C12': ' Round 9: lists of up to 300 bounds.',
+           'C14': ' Round 9: body files with colons in their names; files of 129..400 targets.',
+           'C15': ' Round 9: body files with colons in their names.',
+           'C16': ' Round 9: C16.inputs (encode / report / plot over empty, foreign and valid files in any mix); range-like bucket list elements from the ends of the duration range.',
+           'C18': ' Round 9: names dialled strictly in turn by one caller; C18.manyattackers (several attackers with DNS caching dialling at the same time).',
+           'C19': ' Round 9: C19.resolverscmd with -connect-to and -keepalive=false (queries do not grow with connections under a caching ttl); chunked responses in the CLI check.',
+           'C20': ' Round 9: URLs with credentials; attack names up to 170 runes and not UTF-8; the sum is compared with a tolerance relative to the magnitude of its terms.'}
+for _k, _v in _ADDED6.items():
     PROPS[_k]["rule"] += _v
